@@ -26,6 +26,16 @@
 (*     (LogKilledInRoll): max archived files and no current one, so one    *)
 (*     file too many per such kill -- until the first roll that completes, *)
 (*     whose removal loop deletes ALL the excess.                          *)
+(*     Fault dimension (RoomFaults): for a while the file system of the    *)
+(*     logs has NO ROOM: creating an (empty) file, renaming and removing   *)
+(*     work, anything that needs a data block fails.  The roll of the      *)
+(*     code needs no room (rename, removals -- which free room --, create) *)
+(*     and completes; only the append fails, the write is refused          *)
+(*     (LogWriteNoRoomNoRoll / LogWriteNoRoomRoll).  RollDesign = "copy"   *)
+(*     is the design VARIANT that archives by copy + truncate: its copy    *)
+(*     fails after creating the archive, before the clean-up, the current  *)
+(*     file stays at its limit and every further write leaves one more     *)
+(*     file (witness configuration, TLC must reject it).                   *)
 (*  EventDir    proxy_agent_shared/src/telemetry/event_logger.rs start()   *)
 (*     timer tick: queue empty -> nothing; else the queue is drained, the  *)
 (*     directory is listed and, when files >= cap, the drained events are  *)
@@ -47,6 +57,13 @@
 (*     list AuthorizationRules_*.json sorted by name (= by time, names     *)
 (*     carry the UTC time), remove the (count - max + 1) first when        *)
 (*     count >= max, then write the new dump.                              *)
+(*     Environment dimension (ListFaults): for a while the directory has   *)
+(*     an entry that cannot be stat()ed (dangling symbolic link):          *)
+(*     misc_helpers::search_files fails as a whole and write_all returns   *)
+(*     BEFORE writing anything (DumpWriteSkipped).  DumpDesign =           *)
+(*     "write-first" is the design VARIANT that writes the new dump before *)
+(*     listing: its early return skips the clean-up instead (witness       *)
+(*     configuration, TLC must reject it).                                 *)
 (*                                                                         *)
 (* Sizes are in abstract units; archived files and dumps are kept oldest   *)
 (* first.  `Machine` selects which machine(s) may move, so that the        *)
@@ -64,6 +81,8 @@ CONSTANTS Machine,      \* "log" | "event" | "dumps" | "all"
           PreCur,       \* ... and no current file or one of one of these sizes
           CrashPoints,  \* BOOLEAN: the process may also be killed between the system calls of one write
           RollFaults,   \* BOOLEAN: the environment may make the archive rename fail for a while
+          RoomFaults,   \* BOOLEAN: the log file system may have no room for a while
+          RollDesign,   \* "rename" (the code) | "copy" (design variant: archive by copy + truncate)
           RollKills,    \* BOOLEAN: a run may be killed between the rename and the last removal of a roll, then restarted
           \* --- event directory
           Cap,          \* max_event_file_count
@@ -74,6 +93,8 @@ CONSTANTS Machine,      \* "log" | "event" | "dumps" | "all"
           PreTmp,       \* directory pre-filled with 0..PreTmp leftover temp files as well (FlushFaults only)
           \* --- rule dumps
           MaxDumps,     \* max_file_count of write_all
+          ListFaults,   \* BOOLEAN: the dump directory may hold an entry that cannot be stat()ed for a while
+          DumpDesign,   \* "cleanup-first" (the code) | "write-first" (design variant)
           PreDumps,     \* directory pre-filled with 0..PreDumps dumps
           MaxIds        \* model bound on the number of dumps ever written
 
@@ -85,6 +106,7 @@ VARIABLES
   rolled,    \* ghost: a roll happened since the directory was found
   logLegal,  \* ghost: the directory found at start could have been left by this logger (room for the current file)
   debt,      \* ghost (CrashPoints / RollKills): kills in the middle of archive_file since the last completed roll
+  noRoom,    \* environment: no data block can be allocated on the log file system at present
   rollFails, \* environment: fs::rename of the current file fails at present (appending still works)
   \* event directory
   evFiles,   \* number of event files (<nanos>.json) in the event directory
@@ -96,11 +118,12 @@ VARIABLES
   dumps,     \* ids of the dumps on disk, oldest first; ids grow with age order of creation
   nextId,
   dLegal,    \* ghost: the directory found at start held <= MaxDumps dumps
-  dWritten   \* ghost: write_all ran at least once
+  dWritten,  \* ghost: write_all ran its clean-up at least once
+  listFails  \* environment: search_files on the dump directory fails at present
 
-logVars  == <<arch, cur, lw, rolled, logLegal, debt, rollFails>>
+logVars  == <<arch, cur, lw, rolled, logLegal, debt, rollFails, noRoom>>
 evVars   == <<evFiles, evTmp, evQueue, evRun, evLegal>>
-dumpVars == <<dumps, nextId, dLegal, dWritten>>
+dumpVars == <<dumps, nextId, dLegal, dWritten, listFails>>
 vars     == <<logVars, evVars, dumpVars>>
 
 On(m) == Machine = m \/ Machine = "all"
@@ -126,6 +149,8 @@ P_EvCount(n, cap) == n <= cap
 P_EvNoGrowthAtCap(n, n2, cap) == n >= cap => n2 <= n
 \* "at most the configured number of authorization-rule dumps is kept"
 P_DumpCount(d, max) == Len(d) <= max
+\* a rule-set change never takes the number of dumps above the configured number, nor any higher than it found it
+P_DumpNoGrowthAtMax(n, n2, max) == n >= max => n2 <= n
 \* "the oldest being removed first": every removed dump is older than every dump that was kept (ids grow with age order)
 P_RemovedAreOldest(old, new) ==
   \A i \in DOMAIN old : old[i] \notin Range(new) =>
@@ -140,7 +165,7 @@ LogInit ==
             /\ cur \in PreCur \cup {-1}
        ELSE arch = <<>> /\ cur = -1
   /\ lw = IF cur < Limit THEN 0 ELSE cur - Limit + 1   \* the smallest last write that explains the size found
-  /\ rolled = FALSE /\ debt = 0 /\ rollFails = FALSE
+  /\ rolled = FALSE /\ debt = 0 /\ rollFails = FALSE /\ noRoom = FALSE
   /\ logLegal = (Len(arch) + 1 <= MaxCount)
 
 EvInit ==
@@ -154,7 +179,7 @@ DumpInit ==
         /\ dumps = [i \in 1..n |-> i]
         /\ nextId = n + 1
   /\ dLegal = (Len(dumps) <= MaxDumps)
-  /\ dWritten = FALSE
+  /\ dWritten = FALSE /\ listFails = FALSE
 
 Init == LogInit /\ EvInit /\ DumpInit
 
@@ -170,19 +195,19 @@ Renamed == Append(arch, CurOpened)               \* fs::rename(current, name.<ut
 Trimmed == Drop(Renamed, Excess(Len(Renamed), MaxCount))   \* get_log_files() + removal loop (oldest = first by name)
 
 LogWriteNoRoll(n) ==         \* appending works whether or not the rename would
-  /\ LogOnly /\ ~ShouldRoll
+  /\ LogOnly /\ ~ShouldRoll /\ ~noRoom
   /\ cur' = CurOpened + n /\ lw' = n
-  /\ UNCHANGED <<arch, rolled, logLegal, debt, rollFails>>
+  /\ UNCHANGED <<arch, rolled, logLegal, debt, rollFails, noRoom>>
 
 LogWriteRollKeep(n) ==       \* roll, nothing to delete yet
-  /\ LogOnly /\ ShouldRoll /\ ~rollFails /\ Excess(Len(Renamed), MaxCount) = 0
+  /\ LogOnly /\ ShouldRoll /\ ~rollFails /\ ~noRoom /\ Excess(Len(Renamed), MaxCount) = 0
   /\ arch' = Renamed /\ cur' = n /\ lw' = n /\ rolled' = TRUE /\ debt' = 0
-  /\ UNCHANGED <<logLegal, rollFails>>
+  /\ UNCHANGED <<logLegal, rollFails, noRoom>>
 
 LogWriteRollTrim(n) ==       \* roll and delete the oldest archived files
-  /\ LogOnly /\ ShouldRoll /\ ~rollFails /\ Excess(Len(Renamed), MaxCount) > 0
+  /\ LogOnly /\ ShouldRoll /\ ~rollFails /\ ~noRoom /\ Excess(Len(Renamed), MaxCount) > 0
   /\ arch' = Trimmed /\ cur' = n /\ lw' = n /\ rolled' = TRUE /\ debt' = 0
-  /\ UNCHANGED <<logLegal, rollFails>>
+  /\ UNCHANGED <<logLegal, rollFails, noRoom>>
 
 \* `self.roll_if_needed()?` with archive_file's fs::rename failing: the error is returned before open_file/append,
 \* the write of n is REFUSED and every file keeps its size
@@ -194,12 +219,43 @@ LogWriteRollFails(n) ==
 LogFaultOn ==
   /\ LogOnly /\ RollFaults /\ ~rollFails /\ cur >= 0
   /\ rollFails' = TRUE
-  /\ UNCHANGED <<arch, cur, lw, rolled, logLegal, debt>>
+  /\ UNCHANGED <<arch, cur, lw, rolled, logLegal, debt, noRoom>>
 
 LogFaultOff ==
   /\ LogOnly /\ rollFails
   /\ rollFails' = FALSE
-  /\ UNCHANGED <<arch, cur, lw, rolled, logLegal, debt>>
+  /\ UNCHANGED <<arch, cur, lw, rolled, logLegal, debt, noRoom>>
+
+\* No room on the log file system.  The write of n without a roll: open_file (creates the EMPTY current file when
+\* absent: no data block needed), the append fails, the write is REFUSED.
+LogWriteNoRoomNoRoll(n) ==
+  /\ LogOnly /\ noRoom /\ ~ShouldRoll
+  /\ cur' = CurOpened /\ lw' = IF cur < 0 THEN 0 ELSE lw
+  /\ UNCHANGED <<arch, rolled, logLegal, debt, rollFails, noRoom>>
+
+\* ... with a roll, as the code does it: fs::rename, the removals (they free room), File::create of the new current
+\* file -- none of them needs room, the roll COMPLETES --, then the append fails and the write is refused.
+LogWriteNoRoomRoll(n) ==
+  /\ LogOnly /\ noRoom /\ ShouldRoll /\ ~rollFails /\ RollDesign = "rename"
+  /\ arch' = Trimmed /\ cur' = 0 /\ lw' = 0 /\ rolled' = TRUE /\ debt' = 0
+  /\ UNCHANGED <<logLegal, rollFails, noRoom>>
+
+\* DESIGN VARIANT (RollDesign = "copy"): archive by fs::copy + truncate.  The copy creates the archive and fails for
+\* want of room BEFORE the clean-up; the current file keeps its size (still at the limit); the write is refused.
+LogWriteNoRoomCopyFails(n) ==
+  /\ LogOnly /\ noRoom /\ ShouldRoll /\ ~rollFails /\ RollDesign = "copy"
+  /\ arch' = Append(arch, 0)
+  /\ UNCHANGED <<cur, lw, rolled, logLegal, debt, rollFails, noRoom>>
+
+LogNoRoomOn ==
+  /\ LogOnly /\ RoomFaults /\ ~noRoom
+  /\ noRoom' = TRUE
+  /\ UNCHANGED <<arch, cur, lw, rolled, logLegal, debt, rollFails>>
+
+LogNoRoomOff ==
+  /\ LogOnly /\ noRoom
+  /\ noRoom' = FALSE
+  /\ UNCHANGED <<arch, cur, lw, rolled, logLegal, debt, rollFails>>
 
 \* The run is killed inside archive_file during a write: after fs::rename and j of the removals that were due (not
 \* all of them), before the current file is re-created; the process is started again and finds the directory so.
@@ -210,7 +266,7 @@ LogKilledInRoll(j) ==
   /\ arch' = Drop(Renamed, j) /\ cur' = -1 /\ lw' = 0
   /\ rolled' = FALSE            \* the directory is found anew, no roll has completed since
   /\ debt' = debt + 1
-  /\ UNCHANGED <<logLegal, rollFails>>
+  /\ UNCHANGED <<logLegal, rollFails, noRoom>>
   /\ evQueue' = 0 /\ evRun' = TRUE
   /\ UNCHANGED <<evFiles, evTmp, evLegal, dumpVars>>
 
@@ -221,20 +277,22 @@ LogKillBeforeAppend ==
   /\ IF ShouldRoll THEN arch' = Trimmed /\ cur' = 0 /\ rolled' = TRUE /\ debt' = 0
                    ELSE arch' = arch /\ cur' = CurOpened /\ rolled' = rolled /\ debt' = debt
   /\ lw' = IF ShouldRoll \/ cur < 0 THEN 0 ELSE lw
-  /\ UNCHANGED <<logLegal, rollFails>>
+  /\ UNCHANGED <<logLegal, rollFails, noRoom>>
 \* after the rename and j of the removals, before the current file is re-created
 LogKillInArchive(j) ==
   /\ LogOnly /\ CrashPoints /\ ShouldRoll /\ ~rollFails
   /\ j \in 0..Excess(Len(Renamed), MaxCount)
   /\ arch' = Drop(Renamed, j) /\ cur' = -1 /\ lw' = 0
   /\ debt' = IF j < Excess(Len(Renamed), MaxCount) THEN debt + 1 ELSE debt
-  /\ UNCHANGED <<rolled, logLegal, rollFails>>
+  /\ UNCHANGED <<rolled, logLegal, rollFails, noRoom>>
 
 LogNext == \/ \E n \in 1..MaxWrite : \/ LogWriteNoRoll(n)
                                      \/ LogWriteRollKeep(n)
                                      \/ LogWriteRollTrim(n)
                                      \/ LogWriteRollFails(n)
-           \/ LogFaultOn \/ LogFaultOff
+                                     \/ LogWriteNoRoomNoRoll(n) \/ LogWriteNoRoomRoll(n)
+                                     \/ LogWriteNoRoomCopyFails(n)
+           \/ LogFaultOn \/ LogFaultOff \/ LogNoRoomOn \/ LogNoRoomOff
            \/ LogKillBeforeAppend
            \/ \E j \in 0..(PreArch + 2) : LogKillInArchive(j) \/ LogKilledInRoll(j)
 
@@ -317,16 +375,39 @@ DumpOnly == On("dumps") /\ UNCHANGED <<logVars, evVars>>
 DumpKept == Drop(dumps, Excess(Len(dumps), MaxDumps))
 
 DumpWriteKeep ==
-  /\ DumpOnly /\ Excess(Len(dumps), MaxDumps) = 0
+  /\ DumpOnly /\ ~listFails /\ Excess(Len(dumps), MaxDumps) = 0
   /\ dumps' = Append(dumps, nextId) /\ nextId' = nextId + 1 /\ dWritten' = TRUE
-  /\ UNCHANGED dLegal
+  /\ UNCHANGED <<dLegal, listFails>>
 
 DumpWriteTrim ==
-  /\ DumpOnly /\ Excess(Len(dumps), MaxDumps) > 0
+  /\ DumpOnly /\ ~listFails /\ Excess(Len(dumps), MaxDumps) > 0
   /\ dumps' = Append(DumpKept, nextId) /\ nextId' = nextId + 1 /\ dWritten' = TRUE
-  /\ UNCHANGED dLegal
+  /\ UNCHANGED <<dLegal, listFails>>
 
-DumpNext == DumpWriteKeep \/ DumpWriteTrim
+\* search_files fails (an entry of the directory cannot be stat()ed): `return` before anything is written
+DumpWriteSkipped ==
+  /\ DumpOnly /\ listFails /\ DumpDesign = "cleanup-first"
+  /\ UNCHANGED dumpVars
+
+\* DESIGN VARIANT (DumpDesign = "write-first"): the new dump is written, THEN the listing fails and the early return
+\* skips the clean-up
+DumpWriteNoCleanup ==
+  /\ DumpOnly /\ listFails /\ DumpDesign = "write-first"
+  /\ dumps' = Append(dumps, nextId) /\ nextId' = nextId + 1
+  /\ UNCHANGED <<dLegal, dWritten, listFails>>
+
+DumpListingBreaks ==
+  /\ DumpOnly /\ ListFaults /\ ~listFails
+  /\ listFails' = TRUE
+  /\ UNCHANGED <<dumps, nextId, dLegal, dWritten>>
+
+DumpListingHeals ==
+  /\ DumpOnly /\ listFails
+  /\ listFails' = FALSE
+  /\ UNCHANGED <<dumps, nextId, dLegal, dWritten>>
+
+DumpNext == DumpWriteKeep \/ DumpWriteTrim \/ DumpWriteSkipped \/ DumpWriteNoCleanup
+            \/ DumpListingBreaks \/ DumpListingHeals
 
 -----------------------------------------------------------------------------
 \* Restart of the process: the rolling logger and write_all keep no state; the event queue is memory and the event
@@ -342,7 +423,7 @@ Spec == Init /\ [][Next]_vars
 
 \* the sizes of the archived files never influence a later step (only their number does): the configuration that
 \* explores kills inside rolls identifies states up to those sizes
-CountView == <<Len(arch), cur, lw, rolled, logLegal, debt, rollFails, evVars, dumpVars>>
+CountView == <<Len(arch), cur, lw, rolled, logLegal, debt, rollFails, noRoom, evVars, dumpVars>>
 
 \* model bounds (state constraint)
 Bounded == nextId <= MaxIds + 1 /\ debt <= 2
@@ -351,6 +432,7 @@ Bounded == nextId <= MaxIds + 1 /\ debt <= 2
 \* Invariants (after EVERY step) and step properties.
 
 TypeOK == /\ arch \in Seq(Nat) /\ cur \in Int /\ cur >= -1 /\ lw \in Nat
+          /\ noRoom \in BOOLEAN /\ listFails \in BOOLEAN
           /\ rollFails \in BOOLEAN /\ (rollFails => RollFaults /\ cur >= 0)
           /\ evFiles \in Nat /\ evTmp \in Nat /\ evQueue \in 0..QueueBound /\ evRun \in BOOLEAN
           /\ dumps \in Seq(Nat) /\ nextId \in Nat
@@ -383,6 +465,7 @@ EvStoppedIsQuiet == [][(~evRun /\ ~evRun') => evFiles' + evTmp' <= evFiles + evT
 EvStoppedQueueEmpty == ~evRun => evQueue = 0
 \* rule dumps
 DumpCountBound == (dLegal \/ dWritten) => P_DumpCount(dumps, MaxDumps)
+DumpNoGrowthAtMax == [][P_DumpNoGrowthAtMax(Len(dumps), Len(dumps'), MaxDumps)]_vars
 DumpOldestFirst == [][P_RemovedAreOldest(dumps, dumps')]_vars
 DumpNewestKept == [][dumps' # dumps => dumps'[Len(dumps')] = nextId]_vars
 =============================================================================
